@@ -109,7 +109,13 @@ func (s *session) loopWrite() {
 		}
 
 		vhook.At("redis.session.write.before_wait")
-		req.Wait()
+		// NOTE: Don't wait for the request forever, the backend may never
+		// answer it while the session has been closed.
+		select {
+		case <-req.done:
+		case <-s.quit:
+			return
+		}
 		// TODO(kirk91): abstract response
 		resp := req.Response()
 		if err = s.enc.Encode(resp); err != nil {
